@@ -231,6 +231,7 @@ class LeaseCheckingCrawler(ShareCrawler):
         num_valid_leases_original = 0
         num_valid_leases_configured = 0
         expired_leases_configured = []
+        valid_cancel_secrets = set()
 
         for li in sf.get_leases():
             num_leases += 1
@@ -262,6 +263,7 @@ class LeaseCheckingCrawler(ShareCrawler):
                 expired_leases_configured.append(li)
             else:
                 num_valid_leases_configured += 1
+                valid_cancel_secrets.add(li.cancel_secret)
 
         so_far = self.state["cycle-to-date"]
         self.increment(so_far["leases-per-share-histogram"], str(num_leases), 1)
@@ -270,7 +272,14 @@ class LeaseCheckingCrawler(ShareCrawler):
         would_keep_share = [1, 1, 1, sharetype]
 
         if self.expiration_enabled:
+            # cancel_lease() removes every lease that carries the given cancel
+            # secret: use each secret once, and never one that a lease which
+            # is still valid carries too.
+            cancelled = set()
             for li in expired_leases_configured:
+                if li.cancel_secret in cancelled or li.cancel_secret in valid_cancel_secrets:
+                    continue
+                cancelled.add(li.cancel_secret)
                 sf.cancel_lease(li.cancel_secret)
 
         if num_valid_leases_original == 0:
